@@ -3,7 +3,7 @@
    Regatta's own decision logic is modelled; chain verification and hostname matching of crypto/tls and crypto/x509
    enter as inputs of the decision (PARTIAL: what crypto/tls does with the produced tls.Config is observed by the
    harness in real handshakes, not proved). *)
-From Verif Require Import Model.Bytes Model.Auth Proofs.AuthFacts.
+From Verif Require Import Model.Bytes Model.Auth Proofs.AuthFacts Model.Validate Proofs.ValidateFacts.
 
 (* with a token configured, a call passes only with the header "<bearer, any case> <exactly that token>" *)
 Theorem C17_token_required : forall (token : bytes) (header : option bytes), token <> [] ->
@@ -64,3 +64,12 @@ Print Assumptions C17_other_services_unaffected.
 Print Assumptions C17_override_decides.
 Print Assumptions C17_tls_mutually_exclusive.
 Print Assumptions C17_tls_hostname.
+
+(* which endpoints get the TLS configuration at all (cmd.resolveURL): exactly the address schemes https and unixs;
+   a unix socket is used exactly for unix and unixs *)
+Theorem C17_tls_schemes : forall s : scheme, secure s = true <-> s = SchHttps \/ s = SchUnixs.
+Proof. exact secure_schemes. Qed.
+Theorem C17_unix_schemes : forall s : scheme, unix_socket s = true <-> s = SchUnix \/ s = SchUnixs.
+Proof. exact unix_schemes. Qed.
+Print Assumptions C17_tls_schemes.
+Print Assumptions C17_unix_schemes.
